@@ -61,6 +61,12 @@ CLAIMS = {
  "C31": ("per-path acquire/release automaton over both query entry points, who-may-call on the work functions, allocation-site rule for the semaphore",
          "Decides that every path that acquired a slot has exactly one deferred release registered before any further return, that the refused branch does no work and answers 'too many requests', and that no caller bypasses the gate. Counts under real schedules (channel semantics of TryAddFor) are trusted, not decided.",
          "go/types + go/cfg; concurrency.Semaphore.TryAddFor returns a release function iff it acquired"),
+ "C15": ("accumulator-discipline classification of every write in aggregateSingleResult (commutative / min-max under comparison / recomputed / last-writer-wins with frozen exceptions), path rules on finalizeResult and Result.End, one-result-per-workload path rule in the API querier, field coverage",
+         "Decides that no item-derived value is stored last-writer-wins, that rows are rebuilt from the row map whenever it is non-empty and that an 'empty' verdict is not sticky, i.e. the structural conditions for order independence and streaming = non-streaming. Equality over all permutations as executed is NOT decided.",
+         "go/types + go/cfg; one frozen exception (Query) with reason"),
+ "C21": ("type-directed argument agreement at the LocalBuffer.Add call sites, per-item path rule over the drain loop, whole-loop path rule 'every exit consumed the unlock request exactly once', packed layout rules of C23",
+         "Decides that buffered packets keep their IP version, key, type, size and parse status and are forwarded exactly once, and that the unlock handshake is consumed exactly once on every exit. Interleavings with the third-party three-point lock are NOT decided.",
+         "go/types + go/cfg"),
  "C23": ("per-path packed-record layout extraction (index/slice/unsafe-cast/copy at cursor+const) with writer/reader table comparison",
          "Decides that every field LocalBuffer.Add stores lies inside the cursor stride, fields are disjoint, and Add/Next agree on offset, width, stride and version flag per role; refusal stores nothing. Exact for the layout clause (the one the defect F11 lived in); FIFO behaviour over operation sequences is not decided.",
          "go/types + go/cfg; gc/amd64 sizes for unsafe casts"),
